@@ -719,6 +719,25 @@ func genHostCase(t *rapid.T) *HostCase {
 		g.errProb = 6
 	}
 	ty := g.typ(rapid.IntRange(1, 4).Draw(t, "depth"))
+	if rapid.IntRange(0, 9).Draw(t, "rows") == 0 {
+		// "rows": a slice (or map, or struct field) of interface values holding structs of 2-3
+		// fields - the elements may be of Go types that declare those fields in different orders
+		row := &H{K: "struct"}
+		n := rapid.IntRange(2, 3).Draw(t, "rowfields")
+		for i := 0; i < n; i++ {
+			row.Fields = append(row.Fields, HF{Go: goFieldNames[i], Tag: pick2(t, []string{"", fmt.Sprintf(`yae:"f%d"`, i)})})
+			row.Items = append(row.Items, pick2(t, []*H{{K: "int"}, {K: "string"}, {K: "float64"}, {K: "bool"}, {K: "slice", Elem: &H{K: "int"}}, {K: "time"}}))
+		}
+		el := &H{K: "iface", Elem: row}
+		switch rapid.IntRange(0, 2).Draw(t, "rowscontainer") {
+		case 0:
+			ty = &H{K: "slice", Elem: el}
+		case 1:
+			ty = &H{K: "map", KeyT: &H{K: "string"}, Elem: el}
+		default:
+			ty = &H{K: "struct", Fields: []HF{{Go: "Rows", Tag: `yae:"rows"`}, {Go: "N", Tag: ""}}, Items: []*H{{K: "slice", Elem: el}, {K: "int"}}}
+		}
+	}
 	c := &HostCase{V1: g.fill(ty, true)}
 	// second value: same Go type (arrays keep their length through the filled witness)
 	c.V2 = g.fill(typeWitness(c.V1), true)
